@@ -11,7 +11,7 @@
 //!  * imports: nothing in the component that the world does not import; same kind and
 //!    signatures for everything present; every requested import that carries at least one
 //!    function or resource must be present with *all* its functions when `complete_imports`
-//!    is set (the build kept all code: `--no-gc-sections` / `-Clink-dead-code`).  Imports that
+//!    is set (the build kept all code: `--no-gc-sections` for C, a keep-alive root for Rust).  Imports that
 //!    carry only types may legitimately be elided by wit-component.
 //!  * resources are compared by name only (not by owning interface).
 
